@@ -12,7 +12,8 @@ META = {
                    'the loop back edge returns to the condition after the seed value, exit/stop edges go past the back jump, '
                    'volgende goes to the back-edge target, the skip-jump of a function literal lands right after the body; plus '
                    'the CSA height/frame obligations on these arms (O3 merge heights, O6 innermost-loop/same-function binding, '
-                   'antwoord only inside functions, O2 no residue).',
+                   'antwoord only inside functions, O2 no residue).'
+                   ' The primitives that write a jump operand store the two bytes of a 16-bit value (checked narrowing to u16).',
     'not_decided': ['which branch runs for which run-time value; iteration counts'],
 }
 COMPILER = 'compiler::Compiler'
@@ -71,6 +72,10 @@ def run(ctx, rep):
     rep.rule('R11.5', 'every jump target is an instruction boundary inside the emitted code')
     rep.rule('R11.6', 'an expression statement always ends in Pop (that Pop is what lets a block recover the value of its last expression statement)')
     check_stmt_expr_pop(R, rep, 'R11.6')
+    # the positions CSA reasons about reach the code unchanged: the primitives that write a jump operand store the two bytes of a
+    # 16-bit value (checked narrowing; a wider value would wrap the target around)
+    from rules import c02 as _c02
+    _c02.check_primitives(ctx, rep, rule='R11.5', only=('emit_u16', 'change_jump_operand_at'))
 
     # CSA violations on the control-flow arms
     for v in R['violations']:
@@ -90,6 +95,14 @@ def run(ctx, rep):
         if rule:
             rep.bad(rule, COMPILER + '::' + v['method'], '%s %s' % (ob, c), v['text'], 'src/compiler.rs', key='%s %s' % (v['oblig'], v['kc']))
 
+    check_cfg(ctx, rep, {r: r for r in ('R11.1', 'R11.2', 'R11.3', 'R11.5')})
+
+
+def check_cfg(ctx, rep, m, pfx=''):
+    """the control-flow graph of the code each If / While / Function arm of the compiler emits (m maps R11.1/2/3/5 to the rule ids of the
+    calling property)"""
+    R = csa_run.analyse(ctx)
+    opt = R['optable']
     n_if = n_wh = n_fn = n_tg = 0
     done = set()
     for a in R['arms']:
@@ -106,9 +119,9 @@ def run(ctx, rep):
                 n_tg += 1
                 r = resolve(c['target'])
                 if r != 'UNRESOLVED':
-                    rep.good('R11.5', fn, tr + ' / target of ' + c['op'], 'resolves to the start of an emitted instruction or the end of the construct', 'src/compiler.rs')
+                    rep.good(m['R11.5'], fn, tr + ' / target of ' + c['op'], 'resolves to the start of an emitted instruction or the end of the construct', 'src/compiler.rs')
                 if r == 'UNRESOLVED':
-                    rep.bad('R11.5', fn, tr + ' / target of ' + c['op'], 'a jump targets a position that is not the start of an emitted instruction', 'src/compiler.rs')
+                    rep.bad(m['R11.5'], fn, tr + ' / target of ' + c['op'], 'a jump targets a position that is not the start of an emitted instruction', 'src/compiler.rs')
         if a['method'] != 'compile_expression':
             continue
         blobs = {c['arg'].split('/')[-1] if c.get('arg') else None: i for i, c in enumerate(code) if c['kind'] == 'blob'}
@@ -147,7 +160,7 @@ def run(ctx, rep):
                         problems.append('a branch does not reach the end of the if-expression (%s/%s)' % (tend, fend))
                     if set(tpath) & set(i for i in fpath if code[i]['kind'] == 'blob'):
                         problems.append('true and false edges share a compiled block')
-            rep.ob(not problems, 'R11.1', fn, 'cfg ' + tr, '; '.join(problems) or 'true edge: consequence; false edge: alternative/null; both reach the end', 'src/compiler.rs')
+            rep.ob(not problems, m['R11.1'], fn, 'cfg ' + tr, '; '.join(problems) or 'true edge: consequence; false edge: alternative/null; both reach the end', 'src/compiler.rs')
         elif tr.startswith('Expr::While'):
             n_wh += 1
             ci = blobs.get('While.condition')
@@ -189,7 +202,7 @@ def run(ctx, rep):
                             for ct in bl.get('continues', []):
                                 if resolve(ct) != T:
                                     problems.append('a `volgende` edge does not go to the back-edge target')
-            rep.ob(not problems, 'R11.2', fn, 'cfg ' + tr, '; '.join(sorted(set(problems))) or 'seed; condition; exit past back jump; body; back to condition; stop->exit; volgende->condition', 'src/compiler.rs')
+            rep.ob(not problems, m['R11.2'], fn, 'cfg ' + tr, '; '.join(sorted(set(problems))) or 'seed; condition; exit past back jump; body; back to condition; stop->exit; volgende->condition', 'src/compiler.rs')
         elif tr.startswith('Expr::Function'):
             n_fn += 1
             bi = next((i for i, c in enumerate(code) if c['kind'] == 'blob' and 'Function.body' in (c.get('arg') or '')), None)
@@ -213,11 +226,11 @@ def run(ctx, rep):
                         dead_end = (c['kind'] == 'blob' and not c['reach']) or (c['kind'] == 'op' and opt.get(c['op'], {}).get('class') == 'return')
                         if not dead_end:
                             problems.append('the body can run into the code after it')
-            rep.ob(not problems, 'R11.3', fn, 'cfg ' + tr, '; '.join(problems) or 'skip jump lands after the body; body ends in a return', 'src/compiler.rs')
-    rep.count('if_paths', n_if)
-    rep.count('while_paths', n_wh)
-    rep.count('function_paths', n_fn)
-    rep.count('jump_targets', n_tg)
+            rep.ob(not problems, m['R11.3'], fn, 'cfg ' + tr, '; '.join(problems) or 'skip jump lands after the body; body ends in a return', 'src/compiler.rs')
+    rep.count(pfx + 'if_paths', n_if)
+    rep.count(pfx + 'while_paths', n_wh)
+    rep.count(pfx + 'function_paths', n_fn)
+    rep.count(pfx + 'jump_targets', n_tg)
     for a in R['arms']:
         if a['trace'].startswith('Expr::While') and a['reach']:
             rep.sample({'arm': a['trace'], 'stream': [c.get('op') or ('<%s>' % (c.get('arg') or '').split('/')[-1]) for c in a['code']]})
